@@ -75,7 +75,7 @@ CHECKS = {
     "C08": dict(
         pkg="c08", level="exploration", bins=["dcat"],
         technique="property-based testing (rapid): generated directory layouts with symlinks/special files, rule lists and requests; oracle = last-match-wins reference model over paths resolved by an independent file-tree model; differential on the set of unique secrets served by the real dcat binary",
-        level_text="Generated trees (symlink chains, loops, links to directories and to /dev/zero, FIFOs, '..' segments, relative paths, globs) and ordered allow/deny rule lists (bare or 'readfiles:'-prefixed, with POSIX classes and literal ':') are checked both at the permission API and end to end: the secrets printed by dcat must be exactly those of the files the model allows.",
+        level_text="Generated trees (symlink chains, loops, links to directories and to /dev/zero, FIFOs, '..' segments, relative paths, globs) and ordered allow/deny rule lists (bare or 'readfiles:'-prefixed, with POSIX classes and literal ':') are checked both at the permission API and end to end: the secrets printed by dcat must be exactly those of the files the model allows. Verdicts are asked a second time on the same user object after links were re-pointed, and a long-lived session on a real server handler requests the same paths before and after links are re-pointed: an answer must follow the file a path leads to at the time of the request.",
         level_note="Default build (linuxacl tag off). Background users are documented to bypass the rules and are outside the domain; check/open races are outside the quantifier. Invalid rule regexes are outside the domain.",
         tests=[
             dict(name="TestC08Verdict", quick=dict(checks=4000, timeout=600), thorough=dict(checks=40000, shards=8, timeout=3000)),
@@ -103,7 +103,7 @@ CHECKS = {
     "C09": dict(
         pkg="c09", level="exploration", helpers=["vserver"],
         technique="property-based testing (rapid): generated authorized_keys files, offered keys, users, passwords and job configurations against the public-key callback in-process and against a real server over real SSH handshakes; reference predicate for who may log in; secrecy oracle for health sessions",
-        level_text="Generated authorized_keys texts (three key types, options, comments, blank and whitespace lines anywhere, CRLF, missing final newline) and every pairing of service users with passwords and job allow-lists are checked against the rule 'granted iff key listed / health password / job name of the right kind from an allowed address'; granted health sessions are sent read and map commands naming a planted secret, which must never come back. Key files are put in place the way tools do it (in place, by rename, keeping an old or the previous modification time), job names may exist in both job lists with different allow lists, and look-alike service user names are paired with valid credentials.",
+        level_text="Generated authorized_keys texts (three key types, options, comments, blank and whitespace lines anywhere, CRLF, missing final newline) and every pairing of service users with passwords and job allow-lists are checked against the rule 'granted iff key listed / health password / job name of the right kind from an allowed address'; granted health sessions are sent read and map commands naming a planted secret, which must never come back. The password callback is also driven in-process with generated job lists and IPv4/IPv6 peer addresses. Key files are put in place the way tools do it (in place, by rename, keeping an old or the previous modification time), job names may exist in both job lists with different allow lists, and look-alike service user names are paired with valid credentials.",
         level_note="Only loopback addresses exist in the sandbox, so the deny side of AllowFrom is exercised with lists that do not contain loopback. 'Well-formed file' = every non-blank, non-comment line is a valid authorized_keys line.",
         tests=[
             dict(name="TestC09KeyCallback", quick=dict(checks=5000, timeout=600), thorough=dict(checks=250000, shards=6, timeout=3400)),
@@ -175,7 +175,7 @@ CHECKS = {
     "C04": dict(
         pkg="c04", level="exploration",
         technique="property-based testing (rapid): generated append schedules (line contents up to 64 KiB, write() boundaries incl. inside lines and inside multi-byte characters, delays around the poll interval, filter, queue size, consumer pauses) against the real tail reader in-process, alone and with 2..4 readers sharing one delivery queue; oracle = exact sequence equality with the appended complete lines (ample queue) / in-order subsequence with announced gaps and a final line that must arrive (tiny queue)",
-        level_text="The server's tail reader is started on a harness-owned file; once /proc shows its descriptor positioned at the end of the pre-existing content, the harness appends generated lines through a generated sequence of write() calls and delays while a generated consumer takes lines from the delivery queue. With an ample queue the delivered lines must equal the complete appended (selected) lines byte for byte, once, in order, with nothing from before the follow and a partial line only after its completion; with a tiny queue the delivered lines must be an in-order subsequence and the first line after each gap must report a transmission percentage below 100; a line appended while the consumer is idle and the queue empty must arrive. A second test lets 2..4 followed files share one queue (as the follows of one session do) and judges every file through its source id.",
+        level_text="The server's tail reader is started on a harness-owned file; once /proc shows its descriptor positioned at the end of the pre-existing content, the harness appends generated lines through a generated sequence of write() calls and delays while a generated consumer takes lines from the delivery queue. With an ample queue the delivered lines must equal the complete appended (selected) lines byte for byte, once, in order, with nothing from before the follow and a partial line only after its completion; with a tiny queue the delivered lines must be an in-order subsequence and the first line after each gap must report a transmission percentage below 100; a line appended while the consumer is idle and the queue empty must arrive; a partial line is sometimes held for 3.3 s, across the reader's 3 s housekeeping tick. A long-follow test appends from 1..3 writers as fast as they can for 4..10 s (nothing may be lost or glued on that tick). A further test lets 2..4 followed files share one queue (as the follows of one session do) and judges every file through its source id.",
         level_note="Pre-existing content ends with a newline (what 'the line' is otherwise is not defined). Truncation/rotation is outside the statement. Schedules of writer, poller and consumer are sampled through generated delays, not enumerated.",
         tests=[
             dict(name="TestC04Follow", quick=dict(checks=10, shards=10, timeout=900), thorough=dict(checks=250, shards=10, timeout=3400)),
